@@ -354,6 +354,9 @@ def repeat_then_remove_cases(g, seed, per_type=14):
             for n in (2, 3):
                 cases.append({'type': t, 'ops': [['a', a]] * n + [['r', n - 1], ['f', 0], ['f', 1]]})
             cases.append({'type': t, 'ops': [['a', a]] * 3 + [['r', 0], ['f', 0], ['f', 1]]})
+            # ... and ALL of them taken back: what the duplication built must not hide that a required particle is empty again
+            cases.append({'type': t, 'ops': [['a', a]] * 2 + [['r', 0], ['r', 0], ['f', 0], ['f', 1]]})
+            cases.append({'type': t, 'ops': [['a', a]] * 3 + [['r', 2], ['r', 0], ['r', 0], ['f', 0], ['f', 1]]})
     return cases
 
 
